@@ -135,6 +135,12 @@ def extract(repo, failures):
         if ini.find("_replace_all") > ini.find("_populate_initial_parts") or ini.find("QUILL_THROW") > ini.find("_replace_all"):
             failures.append("time: order reject → rewrite → split changed in init")
     out["rewrites"], out["rejected"] = rewrites, rejected
+    ra = func_body(src, r"_replace_all\s*\([^)]*\)\s*(?:noexcept)?\s*\{")
+    out["replaceAllLoop"] = bool(ra and re.search(r"while\s*\(\(pos\s*=\s*str\.find\(old_value\s*,\s*pos\)\)\s*!=\s*std::string::npos\)", ra)
+                                 and re.search(r"str\.replace\(pos\s*,\s*old_value\.length\(\)\s*,\s*new_value\)", ra)
+                                 and re.search(r"pos\s*\+=\s*new_value\.length\(\)", ra))
+    if not out["replaceAllLoop"]:
+        failures.append("time: _replace_all is no longer `find from pos / replace / skip the replacement`")
 
     # 6. quarter hour
     nq = func_body(src, r"_nearest_quarter_hour_timestamp\s*\([^)]*\)\s*(?:noexcept)?\s*\{")
@@ -233,6 +239,7 @@ def extract(repo, failures):
     L.append("def patchArgs : List (Char × String) := [%s]" % ", ".join("(%s, %s)" % (lean_char(c), lean_str(a)) for c, _, _, _, a in table))
     L.append("def splitAtLowestIndex : Bool := %s" % lean_bool(out.get("splitAtLowestIndex", False)))
     L.append("def rewriteTable : List (Char × String) := [%s]" % ", ".join("(%s, %s)" % (lean_char(c), lean_str(n)) for c, n in rewrites))
+    L.append("def replaceAllLoop : Bool := %s" % lean_bool(out.get("replaceAllLoop", False)))
     L.append("def rejectedTable : List String := [%s]" % ", ".join(lean_str(r) for r in rejected))
     L.append("def localPeriod : Nat := %d" % period)
     L.append("def noonMidnightTable : List Nat := [%s]" % ", ".join(str(x) for x in noon))
